@@ -82,12 +82,14 @@ struct VnaWorld {
     void blocks(double f, int col, Mat &Ed, Mat &Er, Mat &Em, Mat &Et) const
     {
 	int c12 = cls == W12 ? col + 1 : 0;
+	// one 10- / 12-term instrument in seven has no leakage at all: the isolation terms the library finds are exactly zero
+	bool quiet = (cls == W10 || cls == W12) && u(seed, 4242, 0, 0) < 0.15;
 	Ed = Mat(P, P); Er = Mat(P, P); Em = Mat(P, P); Et = Mat(P, P);
 	for (int i = 0; i < P; ++i) for (int j = 0; j < P; ++j) {
 	    bool diag = i == j;
 	    // directivity / leakage
 	    if (diag) Ed(i, j) = term(0, cls == W12 ? 0 : 0, i, j, 0.0, 0.15, f);
-	    else if (cls != W8) Ed(i, j) = term(0, 0, i, j, 0.0, 0.04, f);
+	    else if (cls != W8 && !quiet) Ed(i, j) = term(0, 0, i, j, 0.0, 0.04, f);
 	    if (diag) { Er(i, j) = term(1, c12, i, j, 1.0, 0.2, f); Em(i, j) = term(2, c12, i, j, 0.0, 0.15, f); Et(i, j) = term(3, c12, i, j, 1.0, 0.2, f); }
 	    else if (cls == W16) { Er(i, j) = term(1, 0, i, j, 0.0, 0.04, f); Em(i, j) = term(2, 0, i, j, 0.0, 0.04, f); Et(i, j) = term(3, 0, i, j, 0.0, 0.04, f); }
 	}
